@@ -1,19 +1,31 @@
 import KdVerif.Model.Callstacks
 /-
-  The Python subset of `CallstacksParser.insert_image` and of the frame loop of
-  `CallstacksParser.feed_generator` (`pykdebugparser/callstacks_parser.py`) as a deep embedding with a
-  big-step interpreter — the companion of `Model/PyIR` for C15.  `tools/gen_pyir.py` translates the source
-  text into terms of this IR (`Gen/PyIRCs.lean`); `Props/C15` proves that the translated code, run by this
-  interpreter, is `Callstacks.insertImage` / `Callstacks.lookupAll`.
+  The Python subset of `CallstacksParser.__init__` / `insert_image` / `feed_generator`
+  (`pykdebugparser/callstacks_parser.py`) and of `PyKdebugParser.callstacks` (`pykdebugparser/pykdebugparser.py`) as a
+  deep embedding with a big-step interpreter — the companion of `Model/PyIR` for C15.  `tools/gen_pyir.py` translates the
+  source text into terms of this IR (`Gen/PyIRCs.lean`); `Props/C15` proves that the translated code, run by this
+  interpreter, is `Callstacks.insertImage` / `Callstacks.lookupAll` / `Callstacks.feedFrom`, and that a `callstacks()`
+  request is the translated `feed_generator` run from EMPTY image lists.
 
   The heap is the pair of parallel lists (`Callstacks.Images`); `self.dyld_addresses` / `self.dyld_uuids`
   evaluate to PATHS (`addrsRef`/`uuidsRef`).  Integers are Python ints (`Int`); `l[i]` and `l.insert(i, x)` have
   Python's meaning for negative `i` as well.  `bisect` is a primitive whose meaning is the existing model function
   `Callstacks.bisect` (the lo/hi loop on an arbitrary list, tied to the C implementation by the section `bisect`).
+
+  `feed_generator` is a generator: statements deliver the values they `yield` besides their outcome, and the values
+  delivered before an exception stay delivered (`Res`).  `self.insert_image(a, u)` is answered by interpreting the
+  translated `insert_image` (the interpreter is parametrised by the callee).  The traces the loop dispatches on are
+  `Trace` values: a `PerfEvent` with its `ktraces` and its `cs_frames` (`None` or a list), a `DyldUuidMapA`, a
+  `DyldLaunchExecutable` with its `uuid_map_a`, or any other trace; `isinstance` is decided by the constructor.
   Outside the modelled behaviour: `.error .unmodelled`.  Core Lean only.
 -/
 namespace KdVerif.PyIRCs
 open KdVerif.Callstacks
+
+/-- The classes `feed_generator` tests with `isinstance`. -/
+inductive Cls
+  | perfEvent | dyldUuidMapA | dyldLaunchExecutable
+  deriving DecidableEq, Repr
 
 inductive Expr
   | none
@@ -28,6 +40,16 @@ inductive Expr
   | isIn (x l : Expr)                   -- `x in l`
   | index (l i : Expr)                  -- `l[i]`
   | mkFrame (a u o : Expr)              -- `Frame(a, u, o)`
+  | isinstance (e : Expr) (c : Cls)     -- `isinstance(e, C)`
+  | isNotNone (e : Expr)                -- `e is not None`
+  | and (a b : Expr)                    -- `a and b` (left to right, `b` only when `a` is true)
+  | loadAddr (e : Expr)                 -- `e.load_addr`
+  | uuidOf (e : Expr)                   -- `e.uuid`
+  | uuidMapA (e : Expr)                 -- `e.uuid_map_a`
+  | ktraces (e : Expr)                  -- `e.ktraces`
+  | timestamp (e : Expr)                -- `e.timestamp`
+  | tid (e : Expr)                      -- `e.tid`
+  | mkCallstack (ts tid frames : Expr)  -- `Callstack(ts, tid, frames)`
   | unsupported (src : String)
   deriving DecidableEq, Repr
 
@@ -41,6 +63,8 @@ inductive Stmt
   | insert (l i x : Expr) (next : Stmt)                -- `l.insert(i, x)`
   | forIn (v : Nat) (it : Expr) (body next : Stmt)     -- `for v in it: body`
   | append (v : Nat) (x : Expr) (next : Stmt)          -- `v.append(x)`, `v` a local list
+  | yield (e : Expr) (next : Stmt)                     -- `yield e`
+  | callInsert (a u : Expr) (next : Stmt)              -- `self.insert_image(a, u)` (the value is dropped)
   | unsupported (src : String)
   deriving DecidableEq, Repr
 
@@ -56,16 +80,53 @@ structure FrameV where
   offset : Option Int
   deriving DecidableEq, Repr
 
+/-- A `Callstack(timestamp, tid, frames)` namedtuple. -/
+structure CallstackV where
+  timestamp : Int
+  tid : Int
+  frames : List FrameV
+  deriving DecidableEq, Repr
+
+/-- What is read of an element of `trace.ktraces`. -/
+structure KT where
+  timestamp : Nat
+  tid : Nat
+  deriving DecidableEq, Repr
+
+/-- A trace as `feed_generator` can tell it apart. -/
+inductive Trace
+  /-- a `PerfEvent`: its `ktraces`, its `cs_frames` (`none` = the attribute is `None`) -/
+  | sample (ktraces : List KT) (cs : Option (List Nat))
+  /-- a `DyldUuidMapA(load_addr, uuid)` -/
+  | image (addr : Nat) (uuid : Uuid)
+  /-- a `DyldLaunchExecutable` with its `uuid_map_a` (objects with `load_addr` and `uuid`) -/
+  | launch (imgs : List (Nat × Uuid))
+  /-- an instance of none of the three classes -/
+  | other
+  deriving DecidableEq, Repr
+
+def Trace.isA : Trace → Cls → Bool
+  | .sample _ _, .perfEvent => true
+  | .image _ _, .dyldUuidMapA => true
+  | .launch _, .dyldLaunchExecutable => true
+  | _, _ => false
+
 inductive Val
   | none
   | bool (b : Bool)
   | int (n : Int)
   | uuid (u : Uuid)
   | addrsRef | uuidsRef                 -- paths: the two lists of the parser
-  | sample (cs : List Nat)              -- a `PerfEvent` whose `cs_frames` is `cs`
+  | trace (t : Trace)
+  | gen (l : List Trace) (err : Option PyErr)   -- a generator of traces: what it delivers, then the exception that ends it (if any)
+  | img (a : Nat) (u : Uuid)            -- an element of `uuid_map_a`
+  | imgs (l : List (Nat × Uuid))        -- `trace.uuid_map_a`
+  | kt (k : KT)                         -- an element of `trace.ktraces`
+  | kts (l : List KT)                   -- `trace.ktraces`
   | nats (l : List Nat)                 -- a list of ints that is only iterated (`trace.cs_frames`)
   | frame (f : FrameV)
   | frames (l : List FrameV)            -- a local list of frames
+  | callstack (c : CallstackV)
   deriving DecidableEq, Repr
 
 abbrev Env := Nat → Option Val
@@ -88,7 +149,10 @@ def eval (st : Images) (env : Env) : Expr → Except PyErr Val
   | .uuids => .ok .uuidsRef
   | .csFrames e =>
     match eval st env e with
-    | .ok (.sample cs) => .ok (.nats cs)
+    | .ok (.trace (.sample _ (some cs))) => .ok (.nats cs)
+    | .ok (.trace (.sample _ Option.none)) => .ok .none
+    | .ok (.trace (.image _ _)) => .error .attributeError        -- the dataclasses of dyld.py have no such field
+    | .ok (.trace (.launch _)) => .error .attributeError
     | .ok _ => .error .unmodelled
     | .error x => .error x
   | .bisect l x =>
@@ -137,6 +201,7 @@ def eval (st : Images) (env : Env) : Expr → Except PyErr Val
         match lv, iv with
         | .addrsRef, .int k => (match pyIndex st.addrs k with | some a => .ok (.int a) | Option.none => .error .indexError)
         | .uuidsRef, .int k => (match pyIndex st.uuids k with | some u => .ok (.uuid u) | Option.none => .error .indexError)
+        | .kts l, .int k => (match pyIndex l k with | some x => .ok (.kt x) | Option.none => .error .indexError)
         | _, _ => .error .unmodelled
   | .mkFrame a u o =>
     match eval st env a with
@@ -152,6 +217,67 @@ def eval (st : Images) (env : Env) : Expr → Except PyErr Val
           | .int x, .uuid w, .int y => .ok (.frame ⟨x, some w, some y⟩)
           | .int x, .none, .none => .ok (.frame ⟨x, Option.none, Option.none⟩)
           | _, _, _ => .error .unmodelled
+  | .isinstance e c =>
+    match eval st env e with
+    | .ok (.trace t) => .ok (.bool (t.isA c))
+    | .ok _ => .error .unmodelled
+    | .error x => .error x
+  | .isNotNone e =>
+    match eval st env e with
+    | .ok .none => .ok (.bool false)
+    | .ok _ => .ok (.bool true)
+    | .error x => .error x
+  | .and a b =>
+    match eval st env a with
+    | .ok (.bool false) => .ok (.bool false)
+    | .ok (.bool true) => eval st env b
+    | .ok _ => .error .unmodelled
+    | .error x => .error x
+  | .loadAddr e =>
+    match eval st env e with
+    | .ok (.trace (.image a _)) => .ok (.int a)
+    | .ok (.img a _) => .ok (.int a)
+    | .ok _ => .error .unmodelled
+    | .error x => .error x
+  | .uuidOf e =>
+    match eval st env e with
+    | .ok (.trace (.image _ u)) => .ok (.uuid u)
+    | .ok (.img _ u) => .ok (.uuid u)
+    | .ok _ => .error .unmodelled
+    | .error x => .error x
+  | .uuidMapA e =>
+    match eval st env e with
+    | .ok (.trace (.launch l)) => .ok (.imgs l)
+    | .ok _ => .error .unmodelled
+    | .error x => .error x
+  | .ktraces e =>
+    match eval st env e with
+    | .ok (.trace (.sample k _)) => .ok (.kts k)
+    | .ok _ => .error .unmodelled
+    | .error x => .error x
+  | .timestamp e =>
+    match eval st env e with
+    | .ok (.kt k) => .ok (.int k.timestamp)
+    | .ok _ => .error .unmodelled
+    | .error x => .error x
+  | .tid e =>
+    match eval st env e with
+    | .ok (.kt k) => .ok (.int k.tid)
+    | .ok _ => .error .unmodelled
+    | .error x => .error x
+  | .mkCallstack a b c =>
+    match eval st env a with
+    | .error e => .error e
+    | .ok av =>
+      match eval st env b with
+      | .error e => .error e
+      | .ok bv =>
+        match eval st env c with
+        | .error e => .error e
+        | .ok cv =>
+          match av, bv, cv with
+          | .int x, .int y, .frames l => .ok (.callstack ⟨x, y, l⟩)
+          | _, _, _ => .error .unmodelled
   | .unsupported _ => .error .unmodelled
 
 inductive Outcome
@@ -159,74 +285,220 @@ inductive Outcome
   | ret (v : Val)
   deriving DecidableEq, Repr
 
-/-- `for v in <list of ints>: body` -/
-def forLoop (body : Env → Images → Except PyErr (Outcome × Env × Images)) (v : Nat) :
-    List Nat → Env → Images → Except PyErr (Outcome × Env × Images)
-  | [], env, st => .ok (.normal, env, st)
-  | k :: ks, env, st =>
-    match body (env.set v (.int k)) st with
-    | .error x => .error x
-    | .ok (.ret x, env', st') => .ok (.ret x, env', st')
-    | .ok (.normal, env', st') => forLoop body v ks env' st'
+/-- What running a statement gives: the values yielded (in order), then the outcome — or the exception that ended it;
+    the values yielded before the exception stay delivered. -/
+abbrev Res := List Val × Except PyErr (Outcome × Env × Images)
 
-def exec : Stmt → Env → Images → Except PyErr (Outcome × Env × Images)
-  | .done, env, st => .ok (.normal, env, st)
-  | .ret e, env, st => match eval st env e with | .ok v => .ok (.ret v, env, st) | .error x => .error x
+/-- What `for v in x` iterates: the elements, and the exception that ends the iteration (a generator's own). -/
+def items : Val → Option (List Val × Option PyErr)
+  | .nats l => some (l.map (fun (k : Nat) => Val.int (k : Int)), Option.none)
+  | .imgs l => some (l.map (fun p => Val.img p.1 p.2), Option.none)
+  | .gen l e => some (l.map Val.trace, e)
+  | _ => Option.none
+
+/-- `for v in <elements>: body` -/
+def forLoop (body : Env → Images → Res) (v : Nat) : List Val → Env → Images → Res
+  | [], env, st => ([], .ok (.normal, env, st))
+  | x :: xs, env, st =>
+    match body (env.set v x) st with
+    | (o, .error e) => (o, .error e)
+    | (o, .ok (.ret r, env', st')) => (o, .ok (.ret r, env', st'))
+    | (o, .ok (.normal, env', st')) =>
+      let r := forLoop body v xs env' st'
+      (o ++ r.1, r.2)
+
+/-- The interpreter; `call a u st` answers `self.insert_image(a, u)` on the lists `st` (the lists afterwards). -/
+def exec (call : Val → Val → Images → Except PyErr Images) : Stmt → Env → Images → Res
+  | .done, env, st => ([], .ok (.normal, env, st))
+  | .ret e, env, st => match eval st env e with | .ok v => ([], .ok (.ret v, env, st)) | .error x => ([], .error x)
   | .ite c t e, env, st =>
     match eval st env c with
-    | .ok (.bool true) => exec t env st
-    | .ok (.bool false) => exec e env st
-    | .ok _ => .error .unmodelled
-    | .error x => .error x
+    | .ok (.bool true) => exec call t env st
+    | .ok (.bool false) => exec call e env st
+    | .ok _ => ([], .error .unmodelled)
+    | .error x => ([], .error x)
   | .assign v e next, env, st =>
     match eval st env e with
-    | .ok (.int n) => exec next (env.set v (.int n)) st
-    | .ok _ => .error .unmodelled
-    | .error x => .error x
-  | .assignNewList v next, env, st => exec next (env.set v (.frames [])) st
+    | .ok (.int n) => exec call next (env.set v (.int n)) st
+    | .ok _ => ([], .error .unmodelled)
+    | .error x => ([], .error x)
+  | .assignNewList v next, env, st => exec call next (env.set v (.frames [])) st
   | .insert l i x next, env, st =>
     match eval st env l with
-    | .error e => .error e
+    | .error e => ([], .error e)
     | .ok lv =>
       match eval st env i with
-      | .error e => .error e
+      | .error e => ([], .error e)
       | .ok iv =>
         match eval st env x with
-        | .error e => .error e
+        | .error e => ([], .error e)
         | .ok xv =>
           match lv, iv, xv with
           | .addrsRef, .int k, .int a =>
-            if 0 ≤ a then exec next env { st with addrs := pyInsert st.addrs (pyInsertPos st.addrs.length k) a.toNat }
-            else .error .unmodelled
+            if 0 ≤ a then exec call next env { st with addrs := pyInsert st.addrs (pyInsertPos st.addrs.length k) a.toNat }
+            else ([], .error .unmodelled)
           | .uuidsRef, .int k, .uuid u =>
-            exec next env { st with uuids := pyInsert st.uuids (pyInsertPos st.uuids.length k) u }
-          | _, _, _ => .error .unmodelled
+            exec call next env { st with uuids := pyInsert st.uuids (pyInsertPos st.uuids.length k) u }
+          | _, _, _ => ([], .error .unmodelled)
   | .forIn v it body next, env, st =>
     match eval st env it with
-    | .ok (.nats l) =>
-      (match forLoop (fun env st => exec body env st) v l env st with
-       | .ok (.normal, env', st') => exec next env' st'
-       | r => r)
-    | .ok _ => .error .unmodelled
-    | .error x => .error x
+    | .error x => ([], .error x)
+    | .ok iv =>
+      match items iv with
+      | Option.none => ([], .error (if iv = .none then .typeError else .unmodelled))    -- `for x in None`: TypeError
+      | some (l, err) =>
+        match forLoop (fun env st => exec call body env st) v l env st with
+        | (o, .error e) => (o, .error e)
+        | (o, .ok (.ret r, env', st')) => (o, .ok (.ret r, env', st'))
+        | (o, .ok (.normal, env', st')) =>
+          match err with
+          | some e => (o, .error e)
+          | Option.none =>
+            let r := exec call next env' st'
+            (o ++ r.1, r.2)
   | .append v x next, env, st =>
     match eval st env x with
     | .ok (.frame f) =>
       (match env v with
-       | some (.frames l) => exec next (env.set v (.frames (l ++ [f]))) st
-       | _ => .error .unmodelled)
-    | .ok _ => .error .unmodelled
-    | .error e => .error e
-  | .unsupported _, _, _ => .error .unmodelled
+       | some (.frames l) => exec call next (env.set v (.frames (l ++ [f]))) st
+       | _ => ([], .error .unmodelled))
+    | .ok _ => ([], .error .unmodelled)
+    | .error e => ([], .error e)
+  | .yield e next, env, st =>
+    match eval st env e with
+    | .ok v =>
+      let r := exec call next env st
+      (v :: r.1, r.2)
+    | .error x => ([], .error x)
+  | .callInsert a u next, env, st =>
+    match eval st env a with
+    | .error e => ([], .error e)
+    | .ok av =>
+      match eval st env u with
+      | .error e => ([], .error e)
+      | .ok uv =>
+        match call av uv st with
+        | .error e => ([], .error e)
+        | .ok st' => exec call next env st'
+  | .unsupported _, _, _ => ([], .error .unmodelled)
 
-/-- Running a block on arguments: the returned value (falling off the end: `None`) and the lists afterwards. -/
+/-- no method can be called -/
+def noCall : Val → Val → Images → Except PyErr Images := fun _ _ _ => .error .unmodelled
+
+/-- Running a plain method (no `yield`, calls no method) on arguments: the returned value (falling off the end: `None`)
+    and the lists afterwards. -/
 def run (b : Block) (args : List Val) (st : Images) : Except PyErr (Val × Images) :=
   if args.length ≠ b.params then .error .unmodelled
   else
-    match exec b.body (Env.ofArgs args) st with
-    | .ok (.ret v, _, st') => .ok (v, st')
-    | .ok (.normal, _, st') => .ok (.none, st')
-    | .error x => .error x
+    match exec noCall b.body (Env.ofArgs args) st with
+    | ([], .ok (.ret v, _, st')) => .ok (v, st')
+    | ([], .ok (.normal, _, st')) => .ok (.none, st')
+    | ([], .error x) => .error x
+    | (_ :: _, _) => .error .unmodelled
+
+/-- `self.insert_image(a, u)` answered by the translated `insert_image`. -/
+def callInsertImage (ins : Block) (a u : Val) (st : Images) : Except PyErr Images :=
+  match run ins [a, u] st with
+  | .ok (_, st') => .ok st'
+  | .error e => .error e
+
+/-! ### `CallstacksParser.__init__` and `PyKdebugParser.callstacks` -/
+
+/-- The two list objects a `PyKdebugParser` owns. -/
+inductive ListRef
+  | objAddrs                            -- `self.dyld_addresses`
+  | objUuids                            -- `self.dyld_uuids`
+  deriving DecidableEq, Repr
+
+/-- The attributes of a `CallstacksParser`. -/
+inductive Attr
+  | dyldAddresses | dyldUuids
+  deriving DecidableEq, Repr
+
+/-- `__init__(self, p0, p1, …)`: the assignments `self.<attr> = <parameter k>`, in order. -/
+structure InitDef where
+  params : Nat
+  sets : List (Attr × Nat)
+  deriving DecidableEq, Repr
+
+/-- The body of `PyKdebugParser.callstacks(self, kdebug, trace_codes=None)`. -/
+inductive ReqStmt
+  | clear (l : ListRef) (next : ReqStmt)               -- `l.clear()`
+  | newParser (v : Nat) (a b : ListRef) (next : ReqStmt)   -- `v = CallstacksParser(a, b)`
+  | retFeed (v : Nat) (k c : Nat)                      -- `return v.feed_generator(self.traces(<parameter k>, <parameter c>))`
+  | unsupported (src : String)
+  deriving DecidableEq, Repr
+
+structure RequestDef where
+  params : Nat                          -- after `self`
+  defaults : List Expr                  -- the defaults of the last parameters
+  body : ReqStmt
+  deriving DecidableEq, Repr
+
+structure Prog where
+  init : InitDef
+  insertImage : Block
+  feedGenerator : Block
+  callstacks : RequestDef
+  deriving DecidableEq, Repr
+
+/-- A `CallstacksParser` object: which list object each attribute IS. -/
+structure ParserObj where
+  addrs : Option ListRef := Option.none
+  uuids : Option ListRef := Option.none
+  deriving DecidableEq, Repr
+
+def ParserObj.set (p : ParserObj) : Attr → ListRef → ParserObj
+  | .dyldAddresses, r => { p with addrs := some r }
+  | .dyldUuids, r => { p with uuids := some r }
+
+def runInit (d : InitDef) (args : List ListRef) : Except PyErr ParserObj :=
+  if args.length ≠ d.params then .error .unmodelled
+  else
+    d.sets.foldl (fun acc s =>
+      match acc with
+      | .error e => .error e
+      | .ok p => match args[s.2]? with | some r => .ok (p.set s.1 r) | Option.none => .error .unmodelled) (.ok {})
+
+/-- What consuming a generator to its end gives: the values delivered, then the lists afterwards — or the exception. -/
+abbrev GenRes := List Val × Except PyErr Images
+
+/-- A generator method of `CallstacksParser` run to its end on the lists `st`. -/
+def runGen (p : Prog) (b : Block) (args : List Val) (st : Images) : GenRes :=
+  if args.length ≠ b.params then ([], .error .unmodelled)
+  else
+    match exec (callInsertImage p.insertImage) b.body (Env.ofArgs args) st with
+    | (o, .ok (_, _, st')) => (o, .ok st')
+    | (o, .error x) => (o, .error x)
+
+/-- `CallstacksParser(<the two lists st>).feed_generator(<a generator delivering ts, then raising err>)`, consumed. -/
+def runFeed (p : Prog) (ts : List Trace) (err : Option PyErr) (st : Images) : GenRes :=
+  runGen p p.feedGenerator [.gen ts err] st
+
+/-- The body of `callstacks()`; `st` are the contents of the object's two lists.  The typed heap can hold the parser
+    only when its `dyld_addresses` IS the object's address list and its `dyld_uuids` the object's identity list. -/
+def execReq (p : Prog) (ts : List Trace) (err : Option PyErr) :
+    ReqStmt → (Nat → Option ParserObj) → Images → GenRes
+  | .clear .objAddrs next, env, st => execReq p ts err next env { st with addrs := [] }
+  | .clear .objUuids next, env, st => execReq p ts err next env { st with uuids := [] }
+  | .newParser v a b next, env, st =>
+    match runInit p.init [a, b] with
+    | .error e => ([], .error e)
+    | .ok po => execReq p ts err next (fun j => if j = v then some po else env j) st
+  | .retFeed v k c, env, st =>
+    if k = 0 ∧ c = 1 then
+      match env v with
+      | some ⟨some .objAddrs, some .objUuids⟩ => runFeed p ts err st
+      | _ => ([], .error .unmodelled)
+    else ([], .error .unmodelled)
+  | .unsupported _, _, _ => ([], .error .unmodelled)
+
+/-- `PyKdebugParser.callstacks(kdebug, trace_codes)` called on an object whose two lists hold `st`, the result consumed
+    to its end; `ts` / `err` is what `self.traces(kdebug, trace_codes)` delivers. -/
+def runRequest (p : Prog) (ts : List Trace) (err : Option PyErr) (st : Images) : GenRes :=
+  if p.callstacks.params = 2 ∧ p.callstacks.defaults = [.none] then
+    execReq p ts err p.callstacks.body (fun _ => Option.none) st
+  else ([], .error .unmodelled)
 
 /-- `Frame(frame, None, None)` / `Frame(frame, uuid, offset)` as the model's `Frame`. -/
 def ofFrame (f : Frame) : FrameV :=
@@ -234,11 +506,22 @@ def ofFrame (f : Frame) : FrameV :=
   | Option.none => ⟨f.address, Option.none, Option.none⟩
   | some (u, o) => ⟨f.address, some u, some o⟩
 
+def ofCallstack (c : Callstack) : CallstackV := ⟨c.timestamp, c.tid, c.frames.map ofFrame⟩
+
+/-- A trace item of the hand model as the trace object `feed_generator` sees: the sample's `ktraces` are the records of
+    its window, its `cs_frames` what `handle_event` computed; a launch's `uuid_map_a` is the SORTED list. -/
+def traceOf : Item → Trace
+  | .sample first rest => .sample ((first :: rest).map fun r => ⟨r.ts, r.tid⟩) (csFrames first rest)
+  | .image a u => .image a u
+  | .launch imgs => .launch (sortByAddr imgs)
+  | .other => .other
+
 def Expr.hasUnsupported : Expr → Bool
   | .unsupported _ => true
-  | .csFrames e => e.hasUnsupported
-  | .bisect a b | .sub a b | .gt a b | .isIn a b | .index a b => a.hasUnsupported || b.hasUnsupported
-  | .mkFrame a b c => a.hasUnsupported || b.hasUnsupported || c.hasUnsupported
+  | .csFrames e | .isinstance e _ | .isNotNone e | .loadAddr e | .uuidOf e | .uuidMapA e | .ktraces e | .timestamp e
+  | .tid e => e.hasUnsupported
+  | .bisect a b | .sub a b | .gt a b | .isIn a b | .index a b | .and a b => a.hasUnsupported || b.hasUnsupported
+  | .mkFrame a b c | .mkCallstack a b c => a.hasUnsupported || b.hasUnsupported || c.hasUnsupported
   | _ => false
 
 def Stmt.hasUnsupported : Stmt → Bool
@@ -246,9 +529,19 @@ def Stmt.hasUnsupported : Stmt → Bool
   | .done => false
   | .ret e => e.hasUnsupported
   | .ite c t e => c.hasUnsupported || t.hasUnsupported || e.hasUnsupported
-  | .assign _ e n | .append _ e n => e.hasUnsupported || n.hasUnsupported
+  | .assign _ e n | .append _ e n | .yield e n => e.hasUnsupported || n.hasUnsupported
   | .assignNewList _ n => n.hasUnsupported
   | .insert a b c n => a.hasUnsupported || b.hasUnsupported || c.hasUnsupported || n.hasUnsupported
+  | .callInsert a b n => a.hasUnsupported || b.hasUnsupported || n.hasUnsupported
   | .forIn _ it b n => it.hasUnsupported || b.hasUnsupported || n.hasUnsupported
+
+def ReqStmt.hasUnsupported : ReqStmt → Bool
+  | .unsupported _ => true
+  | .clear _ n | .newParser _ _ _ n => n.hasUnsupported
+  | .retFeed _ _ _ => false
+
+def Prog.hasUnsupported (p : Prog) : Bool :=
+  p.insertImage.body.hasUnsupported || p.feedGenerator.body.hasUnsupported || p.callstacks.body.hasUnsupported
+    || p.callstacks.defaults.any Expr.hasUnsupported
 
 end KdVerif.PyIRCs
